@@ -244,8 +244,11 @@ where
 
         let mut data = unsafe { vec.as_mut_bytes() };
         let mut pos = 0;
-        let mut last_offset_slot = None::<&mut [u8]>;
+        // Offset slot of the previous item and the offset that will replace its `L::MAX` marker.
+        let mut prev = None::<(&mut [u8], L)>;
 
+        // The vector is kept valid after every step, so that an error leaves the items emplaced so far.
+        L::zero().emplace(&mut *data)?;
         for item_emplacer in self.iter {
             if data.len() < offset_size {
                 return Err(Error {
@@ -257,22 +260,21 @@ where
             let item = item_emplacer.emplace(payload)?;
             let payload_size = ceil_mul(item.size(), FlexVec::<T, L>::ALIGN);
             let offset = offset_size + payload_size;
-            L::from_usize(offset)
+            let sealed_offset = L::from_usize(offset)
                 .and_then(|o| if o < L::max_value() { Some(o) } else { None })
                 .ok_or(Error {
                     kind: ErrorKind::InsufficientSize,
                     pos,
-                })?
-                .emplace(offset_slot)?;
-            last_offset_slot = Some(offset_slot);
+                })?;
+            L::max_value().emplace(&mut *offset_slot)?;
+            if let Some((prev_slot, prev_offset)) = prev.take() {
+                prev_offset.emplace(prev_slot)?;
+            }
+            prev = Some((offset_slot, sealed_offset));
 
             data = payload.split_at_mut(payload_size).1;
             pos += offset;
         }
-        match last_offset_slot {
-            Some(offset_slot) => L::max_value().emplace(offset_slot)?,
-            None => L::zero().emplace(data)?,
-        };
 
         Ok(vec)
     }
